@@ -237,7 +237,7 @@ def traces_by_id(trace_path, wanted):
 
 
 def run_conc_driver(ctx, binary, prop, scen_path, trace_path, args):
-    rc, out = vlib.run_driver(ctx, binary, ["-prop", prop, "-in", scen_path, "-out", trace_path] + args, timeout=1500)
+    rc, out = vlib.run_driver(ctx, binary, ["-prop", prop, "-in", scen_path, "-out", trace_path] + args, timeout=2700)
     if rc != 0:
         raise vlib.Inconclusive("conc driver failed rc=%d:\n%s" % (rc, out[-3000:]))
     return json.loads(out.strip().splitlines()[-1])
@@ -405,7 +405,7 @@ def run_c29(ctx, replay):
     else:
         mc = c29_model(ctx, thorough)
         scens = c29_scenarios(random.Random(ctx.seed), thorough)
-        args = ["-procs", "1"] + (["-maxpre", "3", "-budget1", "400", "-budget", "300", "-random", "40"] if thorough else
+        args = ["-procs", "1"] + (["-maxpre", "3", "-budget1", "200", "-budget", "80", "-random", "20"] if thorough else
                                   ["-maxpre", "2", "-budget1", "50", "-budget", "10", "-random", "8"])
         summary, rep, viol = explore_and_validate(ctx, "C29", binary, scens, "Trace_LogPipe", TRACE_CFG, args,
                                                   chunks=8 if thorough else 4)
@@ -529,7 +529,7 @@ def run_c28(ctx, replay):
     else:
         mc = c28_model(ctx, thorough)
         scens = c28_scenarios(random.Random(ctx.seed), thorough)
-        args = ["-procs", "2"] + (["-maxpre", "2", "-budget1", "250", "-budget", "100", "-random", "25"] if thorough else
+        args = ["-procs", "2"] + (["-maxpre", "2", "-budget1", "150", "-budget", "60", "-random", "15"] if thorough else
                                   ["-maxpre", "1", "-budget1", "60", "-random", "8"])
         summary, rep, viol = explore_and_validate(ctx, "C28", binary, scens, "Trace_RPCClient", RPC_CFG, args,
                                                   chunks=8 if thorough else 4)
@@ -600,7 +600,7 @@ def run_c34(ctx, replay):
     else:
         mc = c34_model(ctx, thorough)
         scens = c34_scenarios(random.Random(ctx.seed), thorough)
-        args = ["-procs", "4"] + (["-maxpre", "2", "-budget1", "400", "-budget", "200", "-random", "40"] if thorough else
+        args = ["-procs", "4"] + (["-maxpre", "2", "-budget1", "250", "-budget", "100", "-random", "30"] if thorough else
                                   ["-maxpre", "2", "-budget1", "80", "-budget", "15", "-random", "10"])
         summary, rep, viol = explore_and_validate(ctx, "C34", binary, scens, "Trace_Lifecycle", LC_CFG, args,
                                                   chunks=8 if thorough else 4)
